@@ -54,6 +54,11 @@ pub enum P {
     /// async: select(req a, req b); the winner's event; the still-pending loser future is handed to a
     /// newly spawned task, the original task goes on to await req c
     HandOff(S, S, S),
+    /// async: loop { select(stream a .next(), req b) }: items -> event(a); b answered -> event(b), stop
+    /// (a subscription with a stop request; the stream is dropped when the loop ends)
+    StreamUntil(S, S),
+    /// async: main spawns child1 (req a -> event; then spawns child2 (req b -> event)) and finishes
+    SpawnChain(S, S),
     /// `request(a).map(f).then_send(got)`
     ReqMap(S),
     /// `stream(a).map(f).then_send(got)`
@@ -141,7 +146,8 @@ impl P {
             | P::SelfWake(a, _) | P::Trigger(a, _) | P::SiblingAbort(a, _) => vec![a],
             P::ReqReq(a, b) | P::ReqStream(a, b) | P::StreamReq(a, b) | P::StreamStream(a, b)
             | P::Join(a, b) | P::Select(a, b) | P::SpawnJoin(a, b) | P::SpawnAfter(a, b) | P::Burst(a, b) | P::Channel(a, b)
-            | P::Unordered(a, b) | P::JoinTwice(a, b) | P::MixedNotify(a, b) | P::AbortSpawned(a, b) | P::SelfAbort(a, b) => vec![a, b],
+            | P::Unordered(a, b) | P::JoinTwice(a, b) | P::MixedNotify(a, b) | P::AbortSpawned(a, b) | P::SelfAbort(a, b)
+            | P::StreamUntil(a, b) | P::SpawnChain(a, b) => vec![a, b],
             P::AbortChild(a, b, c) | P::IntoFuture(a, b, c) | P::JoinReq(a, b, c) | P::SelectJoinReq(a, b, c) | P::HandOff(a, b, c) => vec![a, b, c],
             _ => vec![],
         }
@@ -241,6 +247,8 @@ pub fn async_atoms() -> Vec<P> {
         P::JoinReq(s0(), s0(), s0()),
         P::AbortSpawned(s0(), s0()),
         P::SelfAbort(s0(), s0()),
+        P::StreamUntil(s0(), s0()),
+        P::SpawnChain(s0(), s0()),
         P::HandOff(s0(), s0(), s0()),
         P::SelectJoinReq(s0(), s0(), s0()),
     ]
